@@ -265,7 +265,7 @@ Definition run_case (names : list bytes) (c : rcase) : outcome :=
   let '(data, h) := build_bindings (rc_bind c) [] in
   let '(s, root) := Ctx.new_root value VNil is_nil (g_helpers G) [] data [] in
   let st := mkst s h root [] None in
-  render G (4000 + 300 * length (rc_tmpl c)) st (rc_tmpl c).
+  render G (3000 + 8 * length (rc_tmpl c)) st (rc_tmpl c).
 
 Fixpoint log_eqb_aux (a : list event) (b : list (N * list bytes)) : bool :=
   match a, b with
